@@ -173,10 +173,14 @@ def mk_event_seq(I, base):
     return sym_seq(I, lambda i: ActV(ev(i)), n, "list")
 
 
-def mk_env(I, space_kind, reward_cls="RewardSimpleReturn"):
+def mk_env(I, space_kind, reward_cls="RewardSimpleReturn", with_record=False):
     sp = mk_box_space(I) if space_kind == "box" else mk_discrete_space(I)
     b = mk_broker(I, last_accrual="sym")
     tr = mk_track_record(I)
+    if with_record:
+        # a later step of the episode: at least one decision has been executed and recorded
+        pre = I.new_rec("Context", nlv=I.fl("nlv_recorded"))
+        I.fset(tr, "_last_record", I.new_rec("Rebalancing", context_pre=pre))
     I.fset(b, "track_record", tr)
     I.fset(b, "base_currency", I.heap[sp.oid]["base_currency"])
     d = I.int("steps_delay")
@@ -223,6 +227,9 @@ def env_invariant(I, env, heap=None):
         Cl("clock_not_before_last_accrual", TRUE if h[b.oid]["_last_accrual"] is None else h[b.oid]["_last_accrual"].v <= f["_now"].v),
         Cl("record_iff_counted", (tr["_n"].v >= 1) if tr["_last_record"] is not None else (tr["_n"].v == 0)),
     ]
+    if tr["_last_record"] is not None:
+        nl = lift_fl(h[h[tr["_last_record"].oid]["context_pre"].oid]["nlv"])
+        out.append(Cl("recorded_nlv_positive", z3.And(z3.Not(nl.nan), nl.v > 0)))      # Broker.rebalance::ensures::record_nlv
     rw = h[f["_reward"].oid]
     if f["_reward"].cls == "LogReturn":
         out.append(Cl("reward_shape_parameters", z3.And(rw["scale"].v != 0, rw["clip"].v >= 0)))
@@ -312,7 +319,8 @@ class Step(Contract):
     def pre_state(self, I):
         kind = ["box", "discrete"][I.choice(2)]
         rw = ["RewardSimpleReturn", "LogReturn"][I.choice(2)]
-        env = mk_env(I, kind, rw)
+        with_record = [False, True][I.choice(2)]
+        env = mk_env(I, kind, rw, with_record)
         if kind == "box":
             action = act_array(I, z3.Const("submitted", Act))
         else:
